@@ -326,6 +326,13 @@ func c03(c *Ctx) {
 		}
 	}
 
+	c.R.Rule("R3.8", "P&T: the annotation the associator keys on is rendered after the from-XR patches", 1,
+		"a patch that overwrites crossplane.io/composition-resource-name makes the associator take a still-desired resource for one whose template is gone: it is deleted and re-created on every reconcile")
+	{
+		_, ptc := c.composerMethods()
+		ptRenderOrder(c, ptc)
+	}
+
 	c.R.Rule("R3.5", "P&T GC only for references whose annotation names no template", 3,
 		"deleting a resource whose template still exists destroys a desired resource")
 	if as := c.method(pkgComposite, "GarbageCollectingAssociator", "AssociateTemplates"); as != nil {
